@@ -18,10 +18,12 @@ def build_gosym():
     if os.path.exists(GOSYM) and os.path.getmtime(GOSYM) >= newest:
         return
     os.makedirs(os.path.dirname(GOSYM), exist_ok=True)
-    r = subprocess.run(["go", "build", "-o", GOSYM, "."], cwd=src, env=ENV, capture_output=True, text=True)
+    tmp = "%s.tmp.%d" % (GOSYM, os.getpid())
+    r = subprocess.run(["go", "build", "-o", tmp, "."], cwd=src, env=ENV, capture_output=True, text=True)
     if r.returncode != 0:
         print(r.stdout + r.stderr)
         sys.exit(2)
+    os.replace(tmp, GOSYM)  # atomic: checks running in parallel keep the binary they started with
 
 
 def sha(path):
